@@ -432,3 +432,20 @@ func TestParameterInference(t *testing.T) {
 	wantCode(t, err, codeIndeterminateType)
 	noUnsupported(t, s)
 }
+
+func TestTextEncodingAndNames(t *testing.T) {
+	s, pool := newTestDB(t, `CREATE TABLE enc(k integer PRIMARY KEY, s text, b bytea, a text[])`)
+	// PostgreSQL rejects NUL bytes and invalid UTF-8 in text (SQLSTATE 22021); bytea takes anything
+	execCode(t, pool, "22021", `INSERT INTO enc(k, s) VALUES (1, $1)`, "a\x00b")
+	execCode(t, pool, "22021", `INSERT INTO enc(k, s) VALUES (1, $1)`, "a\xffb")
+	execCode(t, pool, "22021", `INSERT INTO enc(k, a) VALUES (1, $1)`, []string{"ok", "bad\xc3"})
+	execCode(t, pool, "22021", "INSERT INTO enc(k, s) VALUES (1, 'lit\xfe')")
+	mustExec(t, pool, `INSERT INTO enc(k, s, b) VALUES (1, $1, $2)`, "héllo €", []byte{0, 0xff, 0xfe})
+	wantRows(t, pool, []string{"héllo €|\\x00fffe|7"}, `SELECT s, b, length(s) FROM enc`)
+	// generated constraint names are shortened to 63 bytes the way PostgreSQL does it
+	mustExec(t, pool, `CREATE TABLE a_table_with_a_really_long_name_for_testing (another_quite_long_column_name_here bigint CHECK (another_quite_long_column_name_here >= 0))`)
+	// name1 (43 bytes) and name2 (35 bytes) are cut alternately, longer first, until they fit 63-1-6 = 56 bytes: 28 + 28
+	mustExec(t, pool, `ALTER TABLE a_table_with_a_really_long_name_for_testing DROP CONSTRAINT a_table_with_a_really_long_n_another_quite_long_column_na_check`)
+	mustExec(t, pool, `INSERT INTO a_table_with_a_really_long_name_for_testing VALUES (-1)`)
+	noUnsupported(t, s)
+}
